@@ -349,6 +349,61 @@ def check_subdistribution(ctx):
     ctx.check(bool(reads), R4, fi.key + ":source", "probabilities are read from self.distribution_dict[key]", "the projection does not read the receiver's probabilities by key", fi)
 
 
+def check_key_notation(ctx):
+    """The saved key of an outcome is text; writer and reader must agree on *how the notation of one key is chosen*.
+    If the writer may choose the notation key by key (separator depending on the key), the reader has to recognise it key by
+    key as well: a reader that decides once for the whole file mis-parses (or rejects) files mixing both notations."""
+    repo = ctx.repo
+    w = repo.func(f"{MOD}:change_tuple_dict_keys_to_comma_separated_integers")
+    r = repo.func(f"{MOD}:preprocess_distibution_dict")
+    ctx.analysed(w, r)
+    # writer: the separator of the join producing the text of a tuple key
+    joins = [c for c in body_walk(w.node) if isinstance(c, ast.Call) and isinstance(c.func, ast.Attribute) and c.func.attr == "join"]
+    comp_vars = {n.id for c in body_walk(w.node) if isinstance(c, (ast.DictComp, ast.ListComp, ast.GeneratorExp)) for g in c.generators for n in ast.walk(g.target) if isinstance(n, ast.Name)}
+    comp_vars |= {n.id for l in body_walk(w.node) if isinstance(l, ast.For) for n in ast.walk(l.target) if isinstance(n, ast.Name)}
+    wd = Defs(w.node)
+    writer_per_key = None
+    for j in joins:
+        sep = j.func.value
+        if isinstance(sep, ast.Constant):
+            writer_per_key = writer_per_key or False
+        else:
+            names = {n.id for n in ast.walk(sep) if isinstance(n, ast.Name)}
+            deps = set(names)
+            for nm in names:
+                for dv in wd.defs.get(nm, []):
+                    if isinstance(dv, ast.AST):
+                        deps |= {n.id for n in ast.walk(dv) if isinstance(n, ast.Name)}
+            writer_per_key = bool(deps & comp_vars) or writer_per_key
+    calls_helper = [c for c in body_walk(w.node) if isinstance(c, ast.Call) and isinstance(c.func, ast.Name) and c.func.id in w.module.functions and any(isinstance(a, ast.Name) and a.id in comp_vars for a in c.args)]
+    if writer_per_key is None and calls_helper:
+        writer_per_key = True  # the text of a key is produced by a helper given the key: notation may depend on it
+    if writer_per_key is None:
+        ctx.undecided(R5, w.key + ":key-notation", "cannot find how the text of a tuple key is produced", w)
+        return
+    # reader: is the split/no-split decision made from the key being converted?
+    loops = [l for l in body_walk(r.node) if isinstance(l, ast.For)]
+    reader_per_key = None
+    if loops:
+        l = loops[0]
+        kv = {n.id for n in ast.walk(l.target) if isinstance(n, ast.Name)}
+        rd = Defs(r.node)
+        tests = [n.test for n in ast.walk(l) if isinstance(n, (ast.IfExp, ast.If))]
+        tests = [t for t in tests if "isinstance" not in norm(t)]
+        for t in tests:
+            names = {n.id for n in ast.walk(t) if isinstance(n, ast.Name)}
+            if names & kv:
+                reader_per_key = True
+            elif reader_per_key is None:
+                reader_per_key = False
+        if not tests:
+            reader_per_key = True  # no notation decision at all inside the loop: a single notation is parsed
+    if reader_per_key is None:
+        ctx.undecided(R5, r.key + ":key-notation", "cannot find the loop converting the stored keys", r)
+        return
+    ctx.check(not (writer_per_key and not reader_per_key), R5, f"{MOD}:key-notation-granularity", "writer and reader agree on how one key's notation is chosen", "the writer chooses the notation of each saved key from that key (separator depends on the outcome) but the reader decides the notation once for the whole dictionary: a saved distribution mixing single-digit and multi-digit outcomes cannot be loaded back", r)
+
+
 def run(ctx):
     check_constructor(ctx)
     check_purity(ctx)
@@ -359,6 +414,7 @@ def run(ctx):
     legacy = {("bitstring_distribution",): "legacy key of files written by older versions; read first, never written"}
     check_pair(ctx, R5, "outcome-distribution", f"{MOD}:save_measurement_outcome_distribution", f"{MOD}:load_measurement_outcome_distribution", None, allow_unwritten=legacy)
     check_pair(ctx, R5, "outcome-distributions", f"{MOD}:save_measurement_outcome_distributions", f"{MOD}:load_measurement_outcome_distributions", None, allow_unwritten=legacy)
+    check_key_notation(ctx)
     ctx.floor("C17-D1", 12)
     ctx.floor("C17-D2", 14)
     ctx.floor("C17-D3", 1)
